@@ -18,8 +18,9 @@ def suites(tier):
         cfg = dict(fuzzy=fuzzy, symbolic=1 if q else 3, steps=3, queries=6 if q else 12)
         jobs.append(dict(id=jid("cache", cfg), func="zzH_C08_cache", cfg=cfg))
     for cfg in product(fuzzy=[0, 1], case=[0], norm=[1]):
-        cfg.update(sets=2, alts=2 if not q else 1, len=2 if not q else 1)
-        jobs.append(dict(id=jid("key", cfg), func="zzH_C01_parse", cfg=cfg))
+        for sets, alts, ln in ([(2, 1, 1)] if q else [(2, 1, 2), (1, 2, 2), (3, 1, 1)]):
+            c2 = dict(cfg, sets=sets, alts=alts, len=ln)
+            jobs.append(dict(id=jid("key", c2), func="zzH_C01_parse", cfg=c2))
     s1 = src_suite("src", jobs, chunkSize=10)
     ljobs = []
     for tail in (0, 3):
